@@ -5,29 +5,8 @@
 //!   checks selftest                                 oracle self-tests (setup)
 //!   checks info                                     print config / profile
 
-mod c01;
-mod c02;
-mod c03;
-mod c04;
-mod c05;
-mod c06;
-mod c08;
-mod c09;
-mod c10;
-mod c11;
-mod c12;
-mod c13;
-mod c14;
-mod c15;
-mod c16;
-mod c17;
-mod c18;
-mod cat;
-mod lex;
-mod selftest;
-mod sup;
-mod wopts;
 
+use checks::*;
 use serde_json::{json, Value};
 use std::time::Instant;
 use vcore::report::*;
